@@ -357,7 +357,7 @@ def main(argv=None):
     t_start = time.time()
     cfg = {
         "timeout_ms": 10000 if tier == "quick" else 120000,
-        "case_deadline_s": 240 if tier == "quick" else 3000,
+        "case_deadline_s": int(os.environ.get("VERIF_CASE_DEADLINE_S", 240 if tier == "quick" else 3000)),
         "run_deadline": time.time() + (1800 if tier == "quick" else 6 * 3600),
         "max_paths": 4000 if tier == "quick" else 50000,
         "selfcheck_samples": 2 if tier == "quick" else 5,
@@ -396,11 +396,76 @@ def main(argv=None):
     # longest-first is unknown; shuffle deterministically for load balance
     random.Random(1).shuffle(jobs)
     nproc = max(1, min(args.jobs, len(jobs)))
-    ctxmp = mp.get_context("fork")
-    with ctxmp.Pool(nproc, initializer=_worker_init, initargs=(prop, tier, seed, cfg)) as pool:
-        results = pool.map(run_case, jobs, chunksize=1)
+    results = _run_jobs(jobs, nproc, prop, tier, seed, cfg, contracts)
     args.model_selftest_cases = st_cases
     return report(prop, tier, seed, contracts, results, args, time.time() - t_start)
+
+
+def _case_child(job, conn):
+    try:
+        out = run_case(job)
+        conn.send(out)
+    except BaseException as e:  # noqa
+        try:
+            conn.send({"__crash__": "".join(traceback.format_exception(type(e), e, e.__traceback__))[-3000:]})
+        except Exception:  # noqa
+            pass
+    finally:
+        conn.close()
+        os._exit(0)
+
+
+def _run_jobs(jobs, nproc, prop, tier, seed, cfg, contracts):
+    """One forked process per case, at most nproc at a time, each under a HARD wall-clock limit: a case whose
+    solver call does not come back (z3 has been seen to ignore timeout, rlimit and interrupt inside non-linear
+    real arithmetic on a changed tree) is killed and reported as undecided - never a hang, never a verdict."""
+    from multiprocessing.connection import wait as mpwait
+
+    _worker_init(prop, tier, seed, cfg)
+    ctxmp = mp.get_context("fork")
+    hard = cfg["case_deadline_s"] + 90
+    pending = list(enumerate(jobs))
+    live = {}  # conn -> (index, job, process, start)
+    results = {}
+
+    def blank(job, why):
+        ci, ki = job
+        c = contracts[ci]
+        case_id = c.cases(tier)[ki][0]
+        return {"contract": c.name, "case": case_id, "kind": c.kind, "canary": c.canary, "obligations": [], "paths": 0,
+                "path_status": {}, "covers": {}, "unsupported": [why], "solver_time": 0.0, "queries": 0, "by_backend": {},
+                "wall": float(hard), "selfcheck": None, "sources": {}, "error": None, "native_evals": 0}
+
+    while pending or live:
+        while pending and len(live) < nproc:
+            i, job = pending.pop(0)
+            rd, wr = ctxmp.Pipe(duplex=False)
+            pr = ctxmp.Process(target=_case_child, args=(job, wr), daemon=True)
+            pr.start()
+            wr.close()
+            live[rd] = (i, job, pr, time.time())
+        ready = mpwait(list(live), timeout=1.0)
+        for rd in ready:
+            i, job, pr, _t0 = live.pop(rd)
+            try:
+                out = rd.recv()
+            except (EOFError, OSError):
+                out = {"__crash__": "worker exited without a result"}
+            rd.close()
+            pr.join(5)
+            if "__crash__" in out:
+                b = blank(job, "worker crashed")
+                b["error"] = out["__crash__"]
+                out = b
+            results[i] = out
+        now = time.time()
+        for rd in [r for r, v in live.items() if now - v[3] > hard]:
+            i, job, pr, _t0 = live.pop(rd)
+            pr.kill()
+            pr.join(5)
+            rd.close()
+            results[i] = blank(job, f"hard wall-clock limit: the case was killed after {hard} s (a solver call did not return)")
+    return [results[i] for i in range(len(jobs))]
 
 
 def report(prop, tier, seed, contracts, results, args, wall):
